@@ -380,6 +380,19 @@ func runC14(c *Ctx) {
 					act = x.Tok.String()
 				case *ast.AssignStmt:
 					act = core.ExprString(x.Rhs[0])
+					// normal form "i < K" for <loop variable> < K, K > i, i <= K-1
+					if cmp, isB := ast.Unparen(x.Rhs[0]).(*ast.BinaryExpr); isB && len(x.Rhs) == 1 {
+						if _, y, op, okO := core.Orient(cmp, func(e ast.Expr) bool { _, isID := ast.Unparen(e).(*ast.Ident); return isID }); okO {
+							if k, isC := core.ConstInt(info, y); isC {
+								switch op {
+								case token.LSS:
+									act = "i < " + itoa(int(k))
+								case token.LEQ:
+									act = "i < " + itoa(int(k)+1)
+								}
+							}
+						}
+					}
 				}
 			}
 			got[hex(m)+"="+hex(v)] = act
@@ -395,9 +408,33 @@ func runC14(c *Ctx) {
 		c.Check("C14-R5", f.Key()+" lead-byte table", c.Pos(f.Decl), ok, "found "+mapStr(got))
 		okLoop := false
 		ast.Inspect(f.Body, func(n ast.Node) bool {
-			if fs, isF := n.(*ast.ForStmt); isF && fs.Cond != nil {
-				s := core.ExprString(fs.Cond)
-				if strings.Contains(s, "i < 5") && strings.Contains(s, "i <= len(token)") {
+			if fs, isF := n.(*ast.ForStmt); isF && fs.Cond != nil && fs.Init != nil {
+				init, isAs := fs.Init.(*ast.AssignStmt)
+				if !isAs || len(init.Lhs) != 1 {
+					return true
+				}
+				iv := info.ObjectOf(init.Lhs[0].(*ast.Ident))
+				if v, isC := core.ConstInt(info, init.Rhs[0]); !isC || v != 1 {
+					return true
+				}
+				upto4, inLen := false, false
+				for _, a := range core.Atoms([]core.Fact{{Expr: fs.Cond, Val: true}}) {
+					cmp, isB := ast.Unparen(a.Expr).(*ast.BinaryExpr)
+					if !isB || !a.Val {
+						continue
+					}
+					_, y, op, okO := core.Orient(cmp, func(e ast.Expr) bool { return isIdentOf(info, e, iv) })
+					if !okO {
+						continue
+					}
+					if k, isC := core.ConstInt(info, y); isC && ((op == token.LSS && k == 5) || (op == token.LEQ && k == 4)) {
+						upto4 = true
+					}
+					if p, isLen := isLenOf(info, y); isLen && op == token.LEQ && p.Root == paramAt(f, 0) {
+						inLen = true
+					}
+				}
+				if upto4 && inLen {
 					okLoop = true
 				}
 			}
@@ -410,7 +447,7 @@ func runC14(c *Ctx) {
 		info := f.Info()
 		ok := false
 		for _, rl := range rangeLoops(f) {
-			if rl.Over != paramObj(f, "stops") {
+			if rl.Over != paramAt(f, 1) {
 				continue
 			}
 			vid, _ := rl.Stmt.Value.(*ast.Ident)
@@ -419,13 +456,27 @@ func runC14(c *Ctx) {
 				if !isF || fs.Init == nil || fs.Cond == nil || fs.Post == nil {
 					return true
 				}
-				init := core.ExprString(fs.Init.(*ast.AssignStmt).Rhs[0])
-				cond := core.ExprString(fs.Cond)
-				if init != "1" || !strings.Contains(cond, "<= len(") {
+				initAs, isAs := fs.Init.(*ast.AssignStmt)
+				if !isAs || len(initAs.Lhs) != 1 {
+					return true
+				}
+				iv := info.ObjectOf(initAs.Lhs[0].(*ast.Ident))
+				if v, isC := core.ConstInt(info, initAs.Rhs[0]); !isC || v != 1 {
+					return true
+				}
+				cmp, isB := ast.Unparen(fs.Cond).(*ast.BinaryExpr)
+				if !isB {
+					return true
+				}
+				_, y, op, okO := core.Orient(cmp, func(e ast.Expr) bool { return isIdentOf(info, e, iv) })
+				if !okO || op != token.LEQ {
+					return true
+				}
+				if p, isLen := isLenOf(info, y); !isLen || vid == nil || p.Root != info.Defs[vid] {
 					return true
 				}
 				for _, call := range core.CallsTo(info, fs.Body, false, "strings.HasSuffix") {
-					if se, isS := ast.Unparen(call.Args[1]).(*ast.SliceExpr); isS && se.Low == nil && vid != nil && core.UsesObj(info, se.X, info.Defs[vid]) && core.UsesObj(info, call.Args[0], paramObj(f, "sequence")) {
+					if se, isS := ast.Unparen(call.Args[1]).(*ast.SliceExpr); isS && se.Low == nil && vid != nil && core.UsesObj(info, se.X, info.Defs[vid]) && core.UsesObj(info, call.Args[0], paramAt(f, 0)) {
 						ok = true
 					}
 				}
@@ -455,7 +506,7 @@ func runC14(c *Ctx) {
 				continue
 			}
 			for _, a := range g.AtomsAt(ex.Loc) {
-				if call, isC := ast.Unparen(a.Expr).(*ast.CallExpr); isC && a.Val && core.CalleeName(info, call) == "strings.Contains" && core.UsesObj(info, call.Args[0], paramObj(f, "sequence")) {
+				if call, isC := ast.Unparen(a.Expr).(*ast.CallExpr); isC && a.Val && core.CalleeName(info, call) == "strings.Contains" && core.UsesObj(info, call.Args[0], paramAt(f, 0)) {
 					// returns the stop it tested
 					if core.ExprString(call.Args[1]) == core.ExprString(ex.Return.Results[1]) {
 						ok = true
@@ -465,7 +516,7 @@ func runC14(c *Ctx) {
 		}
 		over := false
 		for _, rl := range rangeLoops(f) {
-			if rl.Over == paramObj(f, "stops") {
+			if rl.Over == paramAt(f, 1) {
 				over = true
 			}
 		}
